@@ -319,6 +319,11 @@ class Check:
     def finish(self):
         """Write replay files, print lines, write evidence, return the exit code."""
         REPLAYS.mkdir(exist_ok=True)
+        for old in REPLAYS.glob(f"{self.pid}-*.json"):
+            try:
+                old.unlink()  # replay files of earlier runs would be misleading
+            except OSError:
+                pass
         lines = []
         for key, what in self.known_seen:
             lines.append(f"KNOWN-FINDING: property={self.pid} {what}")
